@@ -319,7 +319,15 @@ fn concretise(case: &Value, table: &[(String, Vec<(String, bool)>)], rng: &mut S
         a.drain(i..(i + 2).min(a.len()));
     }
     let vc = case["vc"].as_str().unwrap();
-    let v = if vc == "valid" { valid_for(flag, rng) } else { value_for(vc, rng) };
+    let v = match vc {
+        "valid" => valid_for(flag, rng),
+        // a value this option accepts, respelled: enumerated values are often matched twice (once by
+        // the parser, once by the code that acts on them)
+        "valid-upper" => valid_for(flag, rng).to_uppercase(),
+        "valid-capitalised" => { let v = valid_for(flag, rng); let mut c = v.chars(); c.next().map(|f| f.to_uppercase().collect::<String>() + c.as_str()).unwrap_or_default() }
+        "valid-padded" => format!(" {} ", valid_for(flag, rng)),
+        _ => value_for(vc, rng),
+    };
     if *takes {
         if v.starts_with('-') || rng.gen_bool(0.3) { a.push(format!("{flag}={v}")) } else { a.push(flag.clone()); a.push(v); }
     } else {
